@@ -1553,7 +1553,7 @@ def build_all(seed, tier):
                       "base": base or pid, "variant": variant, "prog": p, "deco": deco, "shuffle": shuffle})
         return pid
 
-    nrand = dict(c21=6, c22=8, c23=7, c24=5)
+    nrand = dict(c21=6, c22=8, c23=10, c24=5)
 
     base = corpus() + refs_corpus() + loops_corpus()
     for p in base:
@@ -1640,6 +1640,7 @@ def main():
     tier = "quick"
     outdir = os.path.join(ROOT, "runs", "dfirtick")
     args = sys.argv[1:]
+    exclude = set()
     i = 0
     while i < len(args):
         if args[i] == "--tier":
@@ -1647,6 +1648,9 @@ def main():
             i += 2
         elif args[i] == "--out":
             outdir = args[i + 1]
+            i += 2
+        elif args[i] == "--exclude":
+            exclude = {int(x) for x in args[i + 1].split(",") if x}
             i += 2
         elif args[i] == "--seed":
             seed = int(args[i + 1])
@@ -1659,6 +1663,8 @@ def main():
     table = []
     meta = []
     for e in progs:
+        if e["id"] in exclude:      # rejected by dfir_lang (reported by the driver): keep the crate buildable
+            continue
         fname = "p%03d" % e["id"]
         src.append("// %s [%s]%s" % (e["name"], e["prop"], " variant of p%03d" % e["base"] if e["variant"] else ""))
         sh = (lambda: random.Random(e["shuffle"])) if e["shuffle"] is not None else (lambda: None)
